@@ -159,6 +159,23 @@ func (s *Stage) getPathLock(key string) *sync.RWMutex {
 	return m
 }
 
+// lockPath takes the write lock of a path.  The lock may be dropped from the
+// table (delPathLock) while we wait for it; whoever asks next would be handed
+// a different one.  A lock that is no longer the path's is therefore not used.
+func (s *Stage) lockPath(key string) *sync.RWMutex {
+	for {
+		m := s.getPathLock(key)
+		m.Lock()
+		s.pathLock.RLock()
+		current := s.pathLocks[key]
+		s.pathLock.RUnlock()
+		if current == m {
+			return m
+		}
+		m.Unlock()
+	}
+}
+
 func (s *Stage) delPathLock(key string) {
 	// s.logDebug("Deleting path lock for:", key)
 	// defer s.logDebug("Deleted path lock for:", key)
@@ -263,9 +280,8 @@ func (s *Stage) initStageFile(path string, size int64) error {
 func (s *Stage) Prepare(parts []sts.Binned) {
 	for _, part := range parts {
 		path := filepath.Join(s.rootDir, part.GetName())
-		lock := s.getPathLock(path)
 		s.logDebug("Preparing:", path)
-		lock.Lock()
+		lock := s.lockPath(path)
 		err := s.initStageFile(path, part.GetFileSize())
 		lock.Unlock()
 		s.logDebug("Prepared:", path)
@@ -330,8 +346,7 @@ func (s *Stage) Receive(file *sts.Partial, reader io.Reader) (err error) {
 	// Make sure we're the only one updating the companion
 	s.logDebug("Receiving part:", file.Source, file.Name, part.Beg, part.End)
 	defer s.logDebug("Received part:", file.Source, file.Name, part.Beg, part.End)
-	lock := s.getPathLock(path)
-	lock.Lock()
+	lock := s.lockPath(path)
 	defer lock.Unlock()
 
 	cmp, err := newLocalCompanion(path, file)
@@ -400,10 +415,9 @@ func (s *Stage) partReceived(part sts.Binned) bool {
 	s.buildCache(s.cacheBuildTime(part.GetFileTime()))
 	beg, end := part.GetSlice()
 	path := filepath.Join(s.rootDir, part.GetName())
-	lock := s.getPathLock(path)
 	// s.logDebug("Checking for received part:", path)
 	// defer s.logDebug("Checked for received part:", path)
-	lock.Lock()
+	lock := s.lockPath(path)
 	defer lock.Unlock()
 	final := &finalFile{
 		path:    path,
@@ -899,8 +913,7 @@ func (s *Stage) process(file *finalFile) {
 	// s.logDebug("Validating:", file.name)
 	// defer s.logDebug("Validated:", file.name)
 
-	fileLock := s.getPathLock(file.path)
-	fileLock.Lock()
+	fileLock := s.lockPath(file.path)
 	defer fileLock.Unlock()
 
 	existingState := s.getFileState(file.path)
@@ -1038,9 +1051,8 @@ func (s *Stage) isFileReady(file *finalFile) bool {
 }
 
 func (s *Stage) finalize(file *finalFile) {
-	fileLock := s.getPathLock(file.path)
 	// s.logDebug("Finalizing prep", file.name)
-	fileLock.Lock()
+	fileLock := s.lockPath(file.path)
 	defer s.delPathLock(file.path)
 	defer fileLock.Unlock()
 
